@@ -70,6 +70,7 @@ type Contract struct {
 	AssumeFacets string // facets whose clauses are assumed, not verified, for this function
 	Extern    bool // assumed contract of an external (standard library) function
 	Trusted   bool   // contract assumed, body not verified
+	VerifyBody string // with Trusted: facet levels at which the body is nevertheless verified against the clauses of that level (the trusted part is then only the frame and the lower-level clauses)
 	Opaque    bool   // never inline; without ensures the result is havocked
 	NoVerify  bool   // body not verified and not claimed (documentation only)
 	Modifies  []string
@@ -83,6 +84,17 @@ type Contract struct {
 type FuncParam struct {
 	Like string
 	Recv string
+}
+
+// Fold is a user-defined recursive specification function over a byte slice:
+//   name(s, lo, hi) = init                                   if hi <= lo
+//                   = step[acc := name(s, lo, hi-1), k := hi-1]  otherwise
+// The step expression may read s[k+c] for constants c (look-behind/look-ahead) and acc.
+type Fold struct {
+	Name         string
+	S, K, Acc    string
+	Init, Step   Expr
+	Src          string
 }
 
 type Pred struct {
@@ -102,6 +114,7 @@ type Specs struct {
 	PropFuncs map[string][]string
 	WalkDirectives []string
 	Ghosts    map[string]int // ghost (uninterpreted) spec functions: name -> arity
+	Folds     map[string]*Fold
 	GhostFields map[string]bool // mutable ghost state per object: heap array G.<name>, read as name(obj)
 }
 
@@ -110,8 +123,8 @@ func NewSpecs() *Specs {
 }
 
 var clauseKeywords = map[string]bool{
-	"pred": true, "func": true, "extern": true, "ghost": true, "ghostfield": true, "iface": true, "walk": true, "requires": true, "ensures": true, "preserves": true, "loop": true,
-	"funcparam": true, "mapspec": true, "assumefacet": true, "readonly": true, "dyncall": true, "inline": true, "trusted": true, "opaque": true, "noverify": true, "modifies": true, "pure": true, "arith": true, "axiom": true,
+	"pred": true, "func": true, "extern": true, "ghost": true, "ghostfield": true, "fold": true, "iface": true, "walk": true, "requires": true, "ensures": true, "preserves": true, "loop": true,
+	"funcparam": true, "mapspec": true, "assumefacet": true, "readonly": true, "dyncall": true, "inline": true, "trusted": true, "verifybody": true, "opaque": true, "noverify": true, "modifies": true, "pure": true, "arith": true, "axiom": true,
 }
 
 // LoadSpecs reads every contracts_verif.go under repo (falling back to mirror for packages lacking one).
@@ -270,6 +283,35 @@ func (S *Specs) parseFile(path string) error {
 			}
 			S.Ghosts[strings.TrimSpace(head[:op])] = n
 			cur = nil
+		case "fold":
+			// fold name(s, k, acc) init E0 := STEP
+			head, body := rest, ""
+			if k := strings.Index(rest, ":="); k >= 0 {
+				head, body = strings.TrimSpace(rest[:k]), strings.TrimSpace(rest[k+2:])
+			}
+			op, cl := strings.Index(head, "("), strings.Index(head, ")")
+			ii := strings.Index(head, " init ")
+			if op < 0 || cl < op || ii < cl || body == "" {
+				return fail(fmt.Errorf("fold name(s, k, acc) init E0 := STEP"))
+			}
+			ps := strings.Split(head[op+1:cl], ",")
+			if len(ps) != 3 {
+				return fail(fmt.Errorf("fold takes three parameters (slice, index, accumulator)"))
+			}
+			ie, err := ParseExpr(strings.TrimSpace(head[ii+6:]))
+			if err != nil {
+				return fail(err)
+			}
+			se, err := ParseExpr(body)
+			if err != nil {
+				return fail(err)
+			}
+			if S.Folds == nil {
+				S.Folds = map[string]*Fold{}
+			}
+			fname := strings.TrimSpace(head[:op])
+			S.Folds[fname] = &Fold{Name: fname, S: strings.TrimSpace(ps[0]), K: strings.TrimSpace(ps[1]), Acc: strings.TrimSpace(ps[2]), Init: ie, Step: se, Src: rest}
+			cur = nil
 		case "ghostfield":
 			// ghostfield name: mutable ghost state attached to objects (heap array G.name indexed by the object's address);
 			// read in contracts as name(obj); changed only by calls whose contract lists "modifies G.name"
@@ -356,6 +398,8 @@ func (S *Specs) parseFile(path string) error {
 				cur.Inline = true
 			case "trusted":
 				cur.Trusted = true
+			case "verifybody":
+				cur.VerifyBody = strings.TrimSpace(rest)
 			case "opaque":
 				cur.Opaque = true
 			case "noverify":
